@@ -37,6 +37,7 @@ class Scheduler:
         self.trace_log = None      # optional: list of (tid, lineno, filename) for the solo trace
         self.lock_owner = None
         self.owners = {}
+        self.waiting = {}          # tid -> key of the lock it is parked at
         self.failed = None
         self.last_kind = {}
         self.mark_self = None      # marks count only for this object's frames (sub-templates run the same lines)
@@ -58,7 +59,13 @@ class Scheduler:
 
     # ---- baton
     def _runnable(self, tid):
-        return tid not in self.finished and tid not in self.blocked
+        # a thread parked at a lock that has been released meanwhile is runnable although it has not yet had the chance to take
+        # itself out of `blocked` (it needs the OS to run it for that; the releasing thread may pass hundreds of yield
+        # points, or finish, within one GIL slice): without this the script entry of such a thread was skipped and, at the
+        # end of the script, "all unfinished threads are blocked" was declared with the lock free
+        if tid in self.finished:
+            return False
+        return tid not in self.blocked or self.owners.get(self.waiting.get(tid, 'cook')) is None
 
     def _advance(self):
         """choose who runs next (called with cv held)"""
@@ -123,6 +130,7 @@ class Scheduler:
     def lock_acquire(self, tid, key='cook'):
         with self.cv:
             while self.owners.get(key) is not None and self.owners.get(key) != tid:
+                self.waiting[tid] = key
                 self.blocked.add(tid)
                 if self.current == tid:
                     self._advance()
